@@ -331,11 +331,12 @@ def mux_check(prop, tier, seed, replay):
                 batches.append((mode, out))
             # 2b. specification -> implementation replay: behaviours of the specification (TLC simulation of
             #     MC_MuxSched.tla at the grain of the simulator) executed as schedules on the real code
-            if prop in ("C02", "C03", "C04", "C05", "C06", "C07", "C08", "C11", "C13", "C15"):
+            if prop in ("C02", "C03", "C04", "C05", "C06", "C07", "C08", "C10", "C11", "C13", "C15"):
                 import tlc_sched
                 nb = 120 if tier == "quick" else 2500
-                scfg = {"C13": "MC_MuxSched_bridge.cfg", "C15": "MC_MuxSched_bind.cfg", "C11": "MC_MuxSched_dgram.cfg"}.get(prop, "MC_MuxSched.cfg")
-                if prop in ("C13", "C15"):
+                scfg = {"C13": "MC_MuxSched_bridge.cfg", "C15": "MC_MuxSched_bind.cfg", "C11": "MC_MuxSched_dgram.cfg",
+                        "C10": "MC_MuxSched_adv.cfg"}.get(prop, "MC_MuxSched.cfg")
+                if prop in ("C13", "C15", "C10"):
                     nb = 40 if tier == "quick" else 1200
                 # a different simulation seed per property: the checks of the family explore different behaviours
                 sch, nstates = tlc_sched.schedules(nb, 70, seed * 37 + int(prop[1:]), cfg=scfg)
